@@ -273,7 +273,8 @@ def gen_c13(g):
                         doms.append([None])
                     else:
                         vals = g.legal_values(c, addr, core=core)
-                        pick = [vals[len(vals) // 2]] + [g.rnd.choice(vals) for _ in range(reps - 1)]
+                        # the middle, both ends, and seeded values of the class
+                        pick = [vals[len(vals) // 2], vals[0], vals[-1]] + [g.rnd.choice(vals) for _ in range(reps - 1)]
                         doms.append(pick)
                 if "IxF" in sig:
                     ixs = IDX_FAMILY + [IX("Y", "disp", 0), IX("Y", "disp", 33), IX("Z", "disp", 0), IX("Z", "disp", 63)]
@@ -281,7 +282,7 @@ def gen_c13(g):
                         for ops in itertools.product(*[[ix] if d == [None] else d for d in doms]):
                             forms.append((mn, core, list(ops), addr))
                 else:
-                    for k in range(reps):
+                    for k in range(reps + 2):
                         forms.append((mn, core, [d[min(k, len(d) - 1)] for d in doms], addr))
     for devname, d in sorted(g.dev.items()):
         core = "reduced" if "Avr8l" in d["flags"] else "classic"
